@@ -22,27 +22,28 @@ import (
 )
 
 type Cfg struct {
-	Name     string
-	C        kit.Committee
-	Byz      []int
-	Silent   []int // honest members that never take a step (crashed)
-	Outsider bool
-	MaxView  uint64
-	Desc     bool
-	Alphabet []string
-	Invalid  map[int]map[string]bool
-	Prims    map[string]bool
-	Eager    bool // offer Byzantine constructions even where a correct node is expected to ignore them
-	RevOrder bool // the flush macro (and the timely schedule's old messages) deliver a node's pending messages in REVERSE canonical order
-	D        int  // number of single fine-grained deliveries allowed per execution (level L1); -1 = L2 (no flush)
-	Cap      int
-	Deadline time.Time
-	Report   map[string]bool // property ids whose violations are reported; nil = all
-	Skip     map[string]bool // violation fingerprints recorded as known findings (counted, not reported)
-	Heights  int             // 1 = single height (nodes stop after their commit)
-	CommitFails bool         // every consumer's commit callback fails (the node stays in the height it decided)
-	Sloppy   bool            // consumer validators accept a missing block
-	C11      bool            // one-step extension: deliver every honest output at once to every peer in a matching state
+	Name          string
+	C             kit.Committee
+	Byz           []int
+	Silent        []int // honest members that never take a step (crashed)
+	Outsider      bool
+	MaxView       uint64
+	Desc          bool
+	Alphabet      []string
+	Invalid       map[int]map[string]bool
+	Prims         map[string]bool
+	Eager         bool // offer Byzantine constructions even where a correct node is expected to ignore them
+	RevOrder      bool // the flush macro (and the timely schedule's old messages) deliver a node's pending messages in REVERSE canonical order
+	D             int  // number of single fine-grained deliveries allowed per execution (level L1); -1 = L2 (no flush)
+	Cap           int
+	Deadline      time.Time
+	Report        map[string]bool // property ids whose violations are reported; nil = all
+	Skip          map[string]bool // violation fingerprints recorded as known findings (counted, not reported)
+	Heights       int             // 1 = single height (nodes stop after their commit)
+	CommitFails   bool            // every consumer's commit callback fails (the node stays in the height it decided)
+	CommitFailsAt []int           // only these members' commit callbacks fail
+	Sloppy        bool            // consumer validators accept a missing block
+	C11           bool            // one-step extension: deliver every honest output at once to every peer in a matching state
 }
 
 type Msg struct {
@@ -187,6 +188,10 @@ func NewEngine(cfg Cfg) *Engine {
 	e.W.SloppyValidator = cfg.Sloppy
 	e.W.MaxCommits = max(cfg.Heights, 1)
 	e.W.CommitFails = cfg.CommitFails
+	e.W.CommitFailsAt = map[int]bool{}
+	for _, i := range cfg.CommitFailsAt {
+		e.W.CommitFailsAt[i] = true
+	}
 	byz := map[int]bool{}
 	for _, b := range cfg.Byz {
 		byz[b] = true
